@@ -19,6 +19,8 @@ class ClobberMonitor:
         self.refused = set()  # clients that got wrote=False
         self.applied = []     # (client, server, shnums)
         self.problems = []
+        self.own = {}         # client -> checkstrings that client has itself sent as the new head of a share
+        self.encountered = [] # (client, text): an answer to a write showed that client a share in a state it had neither been shown before nor written itself
         g.sched.observers.append(self._ob)
         g.sched.observers.append(self._after)
         for s in g.servers:
@@ -50,11 +52,24 @@ class ClobberMonitor:
             wrote, readdata = res[1]
             if not wrote:
                 self.refused.add(m.client)
+            for sh, datav in sorted(readdata.items()):
+                cs = checkstring(datav[0]) if datav else None
+                if not cs:
+                    continue
+                last = self.seen.get((m.client, m.server.idx, sh))
+                if cs != last and cs not in self.own.get(m.client, ()):
+                    self.encountered.append((m.client, "the answer to its write of share(s) %r on server %d showed share %d there as seq%d %s, which it had %s and did not write itself" % (
+                        sorted(m.args[2]), m.server.idx, sh, struct.unpack(">Q", cs[1:9])[0], cs[9:13].hex(),
+                        "last seen as seq%d %s" % (struct.unpack(">Q", last[1:9])[0], last[9:13].hex()) if isinstance(last, bytes) else "never been shown")))
 
     def _before(self, srv, m):
         if m.meth != W:
             return
         si, secrets, tw, rv = m.args
+        for sh, (testv, writev, newlen) in tw.items():
+            for (o, data) in writev:
+                if o == 0 and len(data) >= 41:
+                    self.own.setdefault(m.client, set()).add(bytes(data[:41]))
         srv._pre = (m.mid, {sh: self.on_disk(srv, si, sh) for sh in tw})
 
     def _after(self, m, phase, res):
